@@ -35,7 +35,45 @@ def rel_kinds(prefixes, ktest):
 
 STRUCT = ("I", "K", "B", "E")
 
+def chain(focus, qs, qb, ts, tb, tseeds=3):
+    return {"focus": focus, Q: {"scripts": qs, "blocks": qb, "maxtx": 6, "seeds": 1}, T: {"scripts": ts, "blocks": tb, "maxtx": 8, "seeds": tseeds}}
+
+
+def is_reg(k):
+    return k.startswith(("wrk.", "bcn."))
+
+
+REG_TAGS = ("I", "K", "B", "E", "D wrk.", "D bcn.")
+REG_NOTE = ("Theorems are about the Lean model of x/wrkchain and x/beacon (one generic registry machine) lifted to every reachable state of the whole "
+            "application model (all message kinds, authz nesting of any depth, ante effects, block hooks) under the explicit history assumption "
+            "RegQ (no 64-bit counter has wrapped). The tie to the code is differential: the real app driven through ABCI vs. the compiled model on "
+            "generated and corpus scripts, every run.")
+
 PROPS = {
+    "C07": {
+        "chain": [chain("reg", 24, 25, 300, 40), chain("all", 16, 25, 200, 40), chain("authz", 8, 20, 100, 30)],
+        "corpus": ["witness"],
+        "relevant": rel_kinds(REG_TAGS, is_reg),
+        "level_text": "Proof: c07_records_immutable (a stored record is returned unchanged or pruned in every later state of every run, never overwritten, never back), c07_no_backfill, c07_wrk_record_accepts_only_higher, c07_bcn_ids_consecutive (+ first id is 1), c07_rejected_tx_changes_nothing; all unbounded in the number and interleaving of operations.",
+        "level_note": REG_NOTE,
+        "assumptions": ["RegQ: no registration id, height counter or record count has reached 2^64-1", "message fields are uint64 (protobuf)"],
+    },
+    "C08": {
+        "chain": [chain("reg", 24, 25, 300, 40), chain("all", 16, 25, 200, 40), chain("authz", 8, 20, 100, 30), chain("gov", 8, 20, 100, 30)],
+        "corpus": ["witness"],
+        "relevant": rel_kinds(REG_TAGS, is_reg),
+        "level_text": "Proof: in every reachable state BEACON retains exactly the contiguous newest ids first..last with num = last-first+1 <= limit (c08_bcn_retained_is_newest), WRKChain retains a strictly increasing key list whose length, head and bound are the reported counters (c08_wrk_counters_match_store); each accepted record prunes exactly the oldest when full (c08_*_prune_one_at_a_time); the limit starts at the default, changes only by an owner's purchase, by exactly n, never above max (c08_purchase_raises_by_exactly_n, c08_limit_changes_only_by_purchase); remaining capacity = max(0,max-limit).",
+        "level_note": REG_NOTE + " The two genuine defects found here (uint64 wrap of InStateLimit+Number; wrapped *Storage query) were repaired by fix: commits; their witnesses stay in the corpus.",
+        "assumptions": ["RegQ: no 64-bit counter has wrapped", "purchased slot count is a uint64 (< 2^64) for the 'by exactly n' clause"],
+    },
+    "C09": {
+        "chain": [chain("reg", 24, 25, 300, 40), chain("signer", 16, 20, 200, 30), chain("all", 16, 25, 200, 40)],
+        "corpus": ["witness"],
+        "relevant": rel_kinds(REG_TAGS, is_reg),
+        "level_text": "Proof: c09_ids_sequential_and_fields_verbatim, c09_first_id_is_genesis_start, c09_ids_never_reused, c09_registration_frozen (id/owner/moniker/name/type/genesis/regtime identical in every later state of every run), c09_only_owner_writes, c09_unknown_or_foreign_rejected.",
+        "level_note": REG_NOTE,
+        "assumptions": ["RegQ: no 64-bit counter has wrapped"],
+    },
     "C19": {
         "pure": [{"kinds": ["conv"], Q: 1500, T: 100000}],
         "level_text": "Proof: the conversion is modelled as exact decimal-string arithmetic (the model's own digit functions); theorems c19_fund_to_nund_exact, c19_nund_to_fund_exact, c19_roundtrip_* hold for every numeral of any length; the real ConvertUndDenomination is compared with the model on boundary-heavy generated numerals every run and with an independent exact-rational oracle.",
